@@ -15,14 +15,17 @@ import (
 
 func main() {
 	ev.Main("C31", "model_checking", func(c *ev.Ctx) {
-		c.Rule("A: per scenario (TLS1.2/1.3 x {ticket under head key, ticket under 2nd key, with client certificate}) one genuine ticket x {every offset x {^01,^80,=00,=ff}, every truncation length, 5 kinds of extension by 1..16 bytes, 16 name/IV/body/MAC splices with another server's ticket, 3 foreign-key re-seals, other-version ticket}; " +
+		c.Rule("A: per scenario (TLS1.2/1.3 x {ticket under head key, ticket under 2nd key, with client certificate}, TLS1.0/1.1 x {ticket under head key}) one genuine ticket x {every offset x {^01,^80,=00,=ff}, every truncation length, 5 kinds of extension by 1..16 bytes, 16 name/IV/body/MAC splices with another server's ticket, 3 foreign-key re-seals, other-version ticket}; TLS1.3 additionally the genuine ticket with a PSK binder that does not verify: client-side resumption secret / ticket nonce with every byte x {^01,^80} (nonce also extended by one byte), binder rewritten in flight at every byte x {^01,^80}, all bytes ^ff, all zero; " +
 			"B: every history of {4 SetSessionTicketKeys lists, clock +1h/+25h/+8d, full handshake, resumption with ticket #0..#2} up to the depth bound from 2 initial configs (auto keys, legacy SessionTicketKey) x TLS1.2/1.3, deduplicated on (key list, clock, ticket plaintext headers); " +
-			"C: issue (version,suite) x resumption-time client/server version caps and suite sets. A case is distinct by (scenario, offered ticket bytes) / canonical state / matrix cell")
+			"C: issue (version,suite) x resumption-time client/server version caps and suite sets; " +
+			"D: TLS1.0-1.3 x issue ClientAuth(5) x client has a certificate{f,t} [pruned: issuing handshake cannot complete] x resume ClientAuth(5) x both clocks{T0, T0+48h: past the client leaf's NotAfter} x ClientCAs{same, replaced}. A case is distinct by (scenario, offered ticket bytes, binder fault) / canonical state / matrix cell")
 		c.Assume(
 			"reference ticket codec transcribes the documented layout key_name||IV||AES-128-CTR||HMAC-SHA256 with SHA-512-derived keys (standard library only)",
 			"resumption is observed three ways: ConnectionState.DidResume on both ends and the plaintext handshake shape (server Certificate present / pre_shared_key in ServerHello)",
 			"ticket lifetime: a ticket older than 7 days (maxSessionTicketLifetime, RFC 8446 4.6.1) may be refused; refusing is never a violation, honouring one older than 7 days is",
 			"tls.Config.Clone is used to branch histories; branch-vs-replay equivalence is checked on all histories up to depth 3",
+			"PSK binder faults: RFC 8446 4.2.11 lets (requires) the server abort; accepted outcomes are a clean failure or a non-PSK handshake, never pre_shared_key in the ServerHello / DidResume",
+			"D: an authentic ticket resumes unless the rule documented at the resumption decision declines it (session without client certificate on a server that requires one: must not resume, the full handshake decides; session with a certificate on a NoClientCert server: either); a stored client chain that no longer verifies under a verifying mode must not resume error-free (failing the handshake is accepted); a resumed connection must show the server exactly the certificates proven in the original session",
 		)
 		if c.Replay != nil {
 			var p struct {
@@ -36,6 +39,8 @@ func main() {
 				replayB(c, c.Replay)
 			case "C":
 				replayC(c, c.Replay)
+			case "D":
+				replayD(c, c.Replay)
 			default:
 				c.Broken("witness without part")
 			}
@@ -47,6 +52,9 @@ func main() {
 		}
 		if only == "" || only == "C" {
 			partC(c)
+		}
+		if only == "" || only == "D" {
+			partD(c)
 		}
 		if only == "" || only == "B" {
 			partB(c)
